@@ -318,7 +318,7 @@ func TestFilter(t *testing.T) {
 			m["modes"] = []int{c.ModeN, c.ModeW, c.ModeR}
 			return m
 		},
-		Floors:   map[string]float64{"reject-then-accept-smaller": 0.15, "skip-flag": 0.3},
+		Floors:   map[string]float64{"reject-then-accept-smaller": 0.1, "skip-flag": 0.3},
 		Inflight: true,
 	})
 }
